@@ -545,7 +545,88 @@ async def ws_scenario(env: Any, case: Dict[str, Any]) -> Any:
 # --------------------------------------------------------------------------- running / judging
 
 PROGRAMS = {"*": [["universal"]],
-            "/early": [["respond", 200, [["content-length", "5"]], ["early"]]]}
+            "/early": [["respond", 200, [["content-length", "5"]], ["early"]]],
+            # WebSocket requests the application denies while its coroutine lives on
+            "/deny": [["recv"], ["send", {"type": "websocket.close"}, "tolerate"],
+                      ["sleep", 100.0]],
+            "/deny_http": [["recv"],
+                           ["send", {"type": "websocket.http.response.start", "status": 401,
+                                     "headers": [["content-length", "2"]]}, "tolerate"],
+                           ["send", {"type": "websocket.http.response.body", "body": "no"},
+                            "tolerate"], ["sleep", 100.0]]}
+
+# ---- "odd" inputs: octets and volumes that real peers (or hostile ones) can put into fields
+# the grammars above keep well-formed.  Only the generic part of the oracle applies: no
+# internal error, no broken application, the handler ends, the output is well-formed.
+HIGH = [b"\xe9", b"\xff\xfe", b"caf\xc3\xa9", b"\x80"]
+ODD_WHAT = ["h2_method", "h2_scheme", "h2_authority", "h2_value", "h2_path", "h2_priority_flood",
+            "ws_connection", "ws_extensions", "ws_protocol", "ws_key", "ws_version", "ws_origin",
+            "ws_denied_then_data", "ws_denied_http_then_data", "h1_method", "h1_query",
+            "h1_host", "h1_value", "h1_upgrade"]
+
+
+@st.composite
+def odd_case(draw: Any) -> Dict[str, Any]:
+    return {"kind": "odd", "what": draw(st.sampled_from(ODD_WHAT)),
+            "octets": draw(st.integers(0, len(HIGH) - 1)), "n": draw(st.integers(0, 255)),
+            "seg": draw(segmentation()), "sched": draw(st.integers(0, 999))}
+
+
+def odd_bytes(case: Dict[str, Any]) -> bytes:
+    what, hi, n = case["what"], HIGH[case["octets"]], case["n"]
+    if what.startswith("h2_"):
+        b = H2Builder()
+        b.request(1, b"/w", b"POST", b"witness-one")
+        hs = {b":method": b"GET", b":scheme": b"http", b":authority": b"example.com",
+              b":path": b"/o"}
+        extra = []
+        if what == "h2_method":
+            hs[b":method"] = b"G" + hi + b"T"
+        elif what == "h2_scheme":
+            hs[b":scheme"] = b"htt" + hi
+        elif what == "h2_authority":
+            hs[b":authority"] = b"caf" + hi + b".example"
+        elif what == "h2_path":
+            hs[b":path"] = b"/o" + hi + b"?q=" + hi
+        elif what == "h2_value":
+            extra = [(b"x-odd", b"v" + hi), (b"cookie", hi), (b"user-agent", hi * 3)]
+        if what == "h2_priority_flood":
+            for i in range(1001 + n):
+                f = PriorityFrame(1001 + 2 * i)
+                f.depends_on, f.stream_weight, f.exclusive = 0, 1 + i % 250, False
+                b.add(f)
+        else:
+            b.headers(3, list(hs.items()) + extra, end_stream=True)
+        b.request(5, b"/w", b"POST", b"witness-two")
+        return bytes(b.out)
+    if what.startswith("ws_"):
+        path = {"ws_denied_then_data": b"/deny", "ws_denied_http_then_data": b"/deny_http"}.get(
+            what, b"/ws")
+        h = {b"Host": b"example.com", b"Upgrade": b"websocket", b"Connection": b"Upgrade",
+             b"Sec-WebSocket-Key": make_key(1), b"Sec-WebSocket-Version": b"13"}
+        if what == "ws_connection":
+            h[b"Connection"] = b"Upgrade, caf" + hi
+        elif what == "ws_extensions":
+            h[b"Sec-WebSocket-Extensions"] = b"permessage-deflate; x=" + hi
+        elif what == "ws_protocol":
+            h[b"Sec-WebSocket-Protocol"] = b"chat, caf" + hi
+        elif what == "ws_key":
+            h[b"Sec-WebSocket-Key"] = b"dGhl" + hi + b"=="
+        elif what == "ws_version":
+            h[b"Sec-WebSocket-Version"] = b"13" + hi
+        elif what == "ws_origin":
+            h[b"Origin"] = b"http://caf" + hi + b".example"
+        head = b"GET " + path + b" HTTP/1.1\r\n" + b"".join(
+            k + b": " + v + b"\r\n" for k, v in h.items()) + b"\r\n"
+        return head
+    req = {"h1_method": b"G" + hi + b"T / HTTP/1.1\r\nHost: x\r\n\r\n",
+           "h1_query": b"GET /o?q=" + hi + b" HTTP/1.1\r\nHost: x\r\n\r\n",
+           "h1_host": b"GET /o HTTP/1.1\r\nHost: caf" + hi + b".example\r\n\r\n",
+           "h1_value": b"GET /o HTTP/1.1\r\nHost: x\r\nUser-Agent: " + hi + b"\r\nCookie: "
+                       + hi + b"\r\n\r\n",
+           "h1_upgrade": b"GET /o HTTP/1.1\r\nHost: x\r\nConnection: Upgrade, HTTP2-Settings"
+                         b"\r\nUpgrade: h2c" + hi + b"\r\nHTTP2-Settings: " + hi + b"\r\n\r\n"}
+    return req[what] + b"GET /w HTTP/1.1\r\nHost: x\r\n\r\n"
 
 
 def case_bytes(case: Dict[str, Any]) -> Tuple[bytes, Optional[str], bool]:
@@ -559,6 +640,8 @@ def case_bytes(case: Dict[str, Any]) -> Tuple[bytes, Optional[str], bool]:
         return grammar_bytes(case)[0], None, False
     if kind == "h1_malformed":
         return H1_MALFORMED[case["which"]], None, False
+    if kind == "odd":
+        return odd_bytes(case), None, False
     return h2_violation_bytes(case["which"]), None, False
 
 
@@ -575,6 +658,10 @@ async def scenario(env: Any, case: Dict[str, Any]) -> Any:
             await env.settle(5.0)
             pos = m
     await env.settle(30.0)
+    if case["kind"] == "odd" and case["what"].startswith("ws_") and not conn.server_gone:
+        # whatever the answer was, the client carries on as if the WebSocket were open
+        conn.send(b"".join(message_frames("text", b"after the answer", [])) + close_frame(1000))
+        await env.settle(30.0)
     conn.eof()
     await env.settle(30.0)
     if not conn.server_gone:
@@ -622,6 +709,8 @@ def judge(case: Dict[str, Any], obs: Any) -> Dict[str, Any]:
     data = conn.received()
     kind = case["kind"]
     consumed = bool(obs.instances) or bool(data)
+    if kind == "odd":
+        return {"consumed": True}
     if kind == "ws_grammar":
         ws = conn.ws_session
         if conn.ws_status not in (101, 200):
@@ -788,6 +877,8 @@ def run_case(case: Dict[str, Any]) -> CaseInfo:
         classes += ["op=" + o for o in case["ops"]]
     if case["kind"] == "ws_grammar":
         classes += ["carrier=" + case["carrier"]] + ["wsop=" + o for o in case["ops"]]
+    if case["kind"] == "odd":
+        classes.append("odd=" + case["what"])
     return CaseInfo(bool(info["consumed"]), classes, evals=2)
 
 
@@ -823,6 +914,10 @@ def parts() -> List[Part]:
                   "sessions; findings are bucketed by root cause and re-judged as 'bytes' cases"),
         Part("grammar", run_case, strategy=grammar_case, quick=900, thorough=60000,
              rule="1..3 legal-but-rare HTTP/2 ops between two witness streams"),
+        Part("odd", run_case, strategy=odd_case, quick=400, thorough=20000,
+             rule="non-ASCII octets in every request field the other grammars keep well-formed "
+                  "(HTTP/2 pseudo-headers and values, HTTP/1 method/query/host/values, WebSocket "
+                  "handshake fields), a PRIORITY flood, data sent on after a denied handshake"),
         Part("ws_grammar", run_case, strategy=ws_grammar_case, quick=800, thorough=50000,
              rule="1..5 legal, over-limit and illegal WebSocket frame ops on an accepted echo "
                   "WebSocket (message limit 64 bytes) over HTTP/1 and HTTP/2"),
